@@ -724,6 +724,24 @@ func runC10(p *core.Program, r *core.Report) {
 			c.ob("AG2", fname, "insert from the root with the right tombstone flag", p.InstrPos(call), okA, "Put must call root.insert(t, key, val, t.height, false) and Remove root.insert(t, key, _, t.height, true)")
 		}
 	}
+	// ---------------- Remove gives up only for a key the lookup did not find
+	if keyP := paramByName(fRemove, "key"); keyP != nil && ninsert != nil {
+		fn := fRemove
+		absence := cutEdges(func(v ssa.Value, truth bool) bool { return isLookup(v, keyP) && !truth })
+		stop := map[*ssa.BasicBlock]bool{}
+		for _, call := range callsTo(fn, ninsert) {
+			stop[call.Block()] = true
+		}
+		reach := reachableAvoiding(fn, absence, stop)
+		for _, b := range fn.Blocks {
+			rt, ok := b.Instrs[len(b.Instrs)-1].(*ssa.Return)
+			if !ok || b == fn.Recover || !reach[b] || stop[b] {
+				continue
+			}
+			c.ob("PT3", p.FuncName(fn), "gives up only for an absent key", p.InstrPos(rt), false, "Remove returns without tombstoning on a path that has not passed the 'lookup of the key found nothing' edge: a present key stays in the tree")
+		}
+		c.ob("PT3", p.FuncName(fn), "tombstoning reachable", c.fpos(fn), len(stop) >= 1, "Remove never reaches the tombstoning insert")
+	}
 	// ---------------- height only on a root split
 	{
 		sts := fieldStores(all, "BTree", "height")
